@@ -10,6 +10,9 @@ from assemble import assemble
 import kani_run
 from check import sanitize, load_known
 
+import lint_props
+if lint_props.main():
+    print('lint failed: a verified function is tagged with a property whose check does not run its unit'); sys.exit(1)
 base = {}
 findings, _ = load_known()
 known = set(f['obligation'] for f in findings)
